@@ -117,8 +117,8 @@ def ref_evolve(c, steps=None):
         nxt = []
         for cell in range(N):
             n = [cur[(cell - r + j) % N] for j in range(2 * r + 1)]
-            v = rule(np.array(n), cell, t)
-            nxt.append(int(v))
+            rule(np.array(n), cell, t)
+            nxt.append(int(rule.stored()))
         rows.append(nxt)
         cur = nxt
     return rows, rule.log
